@@ -35,9 +35,9 @@ def expected_sizes(M, L, vals, size):
                 level(g, e)
             if not g.groups and not g.data:
                 esz = g.block_length + gv.get("extra", 0)
-                out += ["ei=%d" % esz] * len(gv["entries"])
+                out.extend(["ei=%d" % esz] * len(gv["entries"]))
                 if gv["entries"]:
-                    out += ["ef=%d" % esz, "eb=%d" % esz]
+                    out.extend(["ef=%d" % esz, "eb=%d" % esz])
         for d in Lv.data:
             out.append("d:%s=%d" % (d.name, d.header_size + len(v["data"][d.name])))
     level(L, vals)
